@@ -391,7 +391,8 @@ func wrapLayers(tier string) []Layer {
 		}
 	}
 	return []Layer{
-		{Name: "large", Kinds: Kinds, CfgsFn: largeConfigs, Inputs: LargeSet(140000), Bound: 1, CfgPerShard: 1},
+		{Name: "large", Kinds: HashKinds, CfgsFn: largeConfigs, Inputs: LargeSet(140000), Bound: 1, CfgPerShard: 1},
+		{Name: "large-sa", Kinds: []string{"GSAP", "OSAP"}, CfgsFn: largeConfigs, Inputs: LargeSet(70000), Bound: 0, CfgPerShard: 1},
 		{Name: "hash-b1", Kinds: HashKinds, BufSizes: []int{1, 2, 3, 5, 8}, Level: 2, Inputs: Union(Binary(6), ZeroA(3)), Bound: 1},
 		{Name: "hash-b2", Kinds: HashKinds, BufSizes: []int{2, 3}, Level: 2, Inputs: Binary(4), Bound: 2},
 		{Name: "hash-long", Kinds: HashKinds, BufSizes: []int{16}, Level: 2, Inputs: FewLong(33), Bound: 1},
